@@ -61,7 +61,7 @@ sem_t *__wrap_sem_open (const char *name, int oflag, ...) {
 }
 int __real_sem_unlink (const char *); int __wrap_sem_unlink (const char *name) { int r; gate ("G sem_unlink %s\n", name); r = __real_sem_unlink (name); REP ("R sem_unlink %s %d %d\n", name, r, r ? errno : 0); return r; }
 int __real_sem_close (sem_t *); int __wrap_sem_close (sem_t *s) { int r; gate ("G sem_close -\n"); r = __real_sem_close (s); REP ("R sem_close - %d %d\n", r, r ? errno : 0); return r; }
-int __real_sem_wait (sem_t *); int __wrap_sem_wait (sem_t *s) { int r; gate ("G sem_wait -\n"); r = __real_sem_wait (s); REP ("R sem_wait - %d %d\n", r, r ? errno : 0); return r; }
+int __real_sem_wait (sem_t *); int __wrap_sem_wait (sem_t *s) { int r; gate ("G sem_wait -\n"); if (inject ("sem_wait")) { REP ("R sem_wait - %d %d\n", -1, errno); return -1; } r = __real_sem_wait (s); REP ("R sem_wait - %d %d\n", r, r ? errno : 0); return r; }
 int __real_sem_post (sem_t *); int __wrap_sem_post (sem_t *s) { int r; gate ("G sem_post -\n"); r = __real_sem_post (s); REP ("R sem_post - %d %d\n", r, r ? errno : 0); return r; }
 int __real_shm_open (const char *, int, mode_t); int __wrap_shm_open (const char *name, int oflag, mode_t mode) { int r; gate ("G shm_open %s %d\n", name, oflag); if (inject ("shm_open")) { REP ("R shm_open %s %d %d %d\n", name, oflag, -1, errno); return -1; } r = __real_shm_open (name, oflag, mode); REP ("R shm_open %s %d %d %d\n", name, oflag, r < 0 ? -1 : 0, r < 0 ? errno : 0); return r; }
 int __real_shm_unlink (const char *); int __wrap_shm_unlink (const char *name) { int r; gate ("G shm_unlink %s\n", name); r = __real_shm_unlink (name); REP ("R shm_unlink %s %d %d\n", name, r, r ? errno : 0); return r; }
